@@ -247,8 +247,17 @@ def call_plan(e, minfo, X, state, value, skip):
         kw['n_draws'] = 2
         kw['n_bootstraps'] = 1 if skip else 2
     if meth == 'fit_quantile':
-        kw['quantile'] = 0.5
         kw['max_iter'] = 2
+        if skip:
+            # the loop leaves through `if _within_tol(ratio, quantile, tol): break` in its first iteration
+            with warnings.catch_warnings():
+                warnings.simplefilter('ignore')
+                ratio = float((model.predict(X) > minfo['y']).mean())
+            kw['quantile'] = min(max(ratio, 0.02), 0.98)
+            kw['tol'] = 0.03
+        else:
+            kw['quantile'] = 0.51          # ratios are multiples of 1/30: never within tol, the loop body runs on
+            kw['tol'] = 0.001
     kw[arg] = value
     return lambda: fn(**kw)
 
@@ -297,9 +306,9 @@ def entry_stream(res, rng, entries, excs):
         base = base_value(e, minfo, X)
         for state in states:
             fitted = state == 'fitted'
-            skips = [True, False] if e['meth'] == 'sample' else [False]
+            skips = [True, False] if (e['meth'] == 'sample' or (e['meth'] == 'fit_quantile' and fitted)) else [False]
             for skip in skips:
-                heavy = e['meth'] in heavy_meths and not (e['meth'] == 'sample' and skip)
+                heavy = e['meth'] in heavy_meths and not (e['meth'] in ('sample', 'fit_quantile') and skip)
                 for tag, value, d in variants(e['arg'], base, kinds, res.tier, heavy, minfo['bad'] if e['arg'] == 'y' else None):
                     obs, text = observe(call_plan(e, minfo, X, state, value, skip), X)
                     record(res, cases, meta, excs, e, d, value, tag, fitted, skip, obs, text)
@@ -320,6 +329,7 @@ def record(res, cases, meta, excs, e, d, value, tag, fitted, skip, obs, text):
                                                        coq_bool(fitted), coq_bool(skip), obs))
     inp = dict(cls=e['cls'], method=e['meth'], origin=e['origin'], argument=e['arg'], corruption=tag, kind=d['kind'],
                container=d['cont'], dtype=d['dt'], fitted=fitted, n_bootstraps=(1 if skip else 2) if e['meth'] == 'sample' else None,
+               loop_skipped=skip if e['meth'] in ('sample', 'fit_quantile') else None,
                value=np.asarray(value, dtype=float).tolist() if np.asarray(value).size <= 12 else
                'base %s with %s (see harness/props/c11.py variants, seed %d)' % (e['arg'], tag, res.seed))
     m = dict(input=inp, observed=text, obs=obs)
@@ -410,6 +420,142 @@ def nasty_fits(res, rng):
                     observed=text, finding=nasty_finding(cls, tag, obs, text)))
 
 
+def generic_gam_fits(res, rng):
+    """last sentence of the property for the generic GAM class: every (distribution, link) pair the library offers
+    (pygam.distributions.DISTRIBUTIONS x pygam.links.LINKS, binomial with 1, 2, 5, 12 trials) on valid targets inside
+    the support of the distribution and the domain of the link, including the boundary values.  Explored, not proved.
+    Outcome must be ValueError (incl. OptimizationError) or a model with finite coef_ and finite training predictions;
+    a raw numpy LinAlgError (although a ValueError subclass), AssertionError, FloatingPointError, TypeError ... is an
+    untagged violation carrying the concrete input."""
+    from pygam import GAM, s, l, f
+    from pygam.distributions import DISTRIBUTIONS, BinomialDist
+    from pygam.links import LINKS
+    reps = 1 if res.tier == 'quick' else 4
+    dists = []
+    for name in DISTRIBUTIONS:
+        if name == 'binomial':
+            dists += [(name, lv) for lv in (1, 2, 5, 12)]
+        else:
+            dists.append((name, None))
+    for rep in range(reps):
+        n = N
+        X = np.empty((n, 3))
+        X[:, 0] = [rng.randint(0, 64) / 64.0 for _ in range(n)]
+        X[:, 1] = [rng.randint(-32, 32) / 16.0 for _ in range(n)]
+        X[:, 2] = [i % 3 for i in range(n)]
+        e = 0.1 + 0.8 * (0.5 + 0.5 * np.tanh(2 * X[:, 0] - 1 + 0.25 * (X[:, 2] == 1)))        # in (0.1, 0.9)
+        jit = np.array([rng.randint(-8, 8) / 64.0 for _ in range(n)])
+        rows = list(range(n))
+        rng.shuffle(rows)
+        b0, b1 = rows[:4], rows[4:8]                                                 # rows forced onto the boundaries
+        for dname, lv in dists:
+            for lname in LINKS:
+                positive_link = lname in ('log', 'inverse', 'inv_squared')
+                scen = {}
+                if dname == 'binomial':
+                    base = np.clip(np.round(lv * (e + 2 * jit)), 0, lv)
+                    scen['generic'] = base
+                    y = base.copy(); y[b0] = 0.0; y[b1] = float(lv)
+                    scen['rows y==0 and y==levels'] = y
+                    y = base.copy(); y[:] = np.where(np.arange(n) % 2 == 0, 0.0, float(lv))
+                    scen['only y==0 and y==levels'] = y
+                    scen['all y==levels'] = np.full(n, float(lv))
+                elif dname == 'poisson':
+                    base = np.floor(1 + 4 * e + (np.arange(n) % 3))
+                    scen['generic'] = base
+                    y = base.copy(); y[b0 + b1] = 0.0
+                    scen['some zeros'] = y
+                    y = np.zeros(n); y[b0] = 3.0
+                    scen['mostly zeros'] = y
+                    scen['all zeros'] = np.zeros(n)
+                    scen['large counts'] = base * 1e6
+                elif dname in ('gamma', 'inv_gauss'):
+                    base = 0.5 + 2 * e + np.abs(jit)
+                    scen['generic'] = base
+                    y = base.copy(); y[b0] *= 1e-8
+                    scen['some very small (1e-8)'] = y
+                    y = base.copy(); y[b1] *= 1e8
+                    scen['some very large (1e8)'] = y
+                    y = base.copy(); y[b0] *= 1e-8; y[b1] *= 1e8
+                    scen['very small and very large'] = y
+                    scen['all tiny (1e-150)'] = base * 1e-150
+                    scen['all huge (1e150)'] = base * 1e150
+                else:                                                                 # normal and anything new
+                    base = (0.5 + e + np.abs(jit)) if (positive_link or lname == 'logit') else (e + 2 * jit - 0.5)
+                    if lname == 'logit':
+                        base = np.clip(e + jit, 0.05, 0.95)
+                    scen['generic'] = base
+                    scen['constant y'] = np.full(n, float(base[0]))
+                    if not positive_link and lname != 'logit':
+                        y = base.copy(); y[b0] = 0.0
+                        scen['some exact zeros'] = y
+                        scen['huge (1e150)'] = base * 1e150
+                # a pair that cannot even fit plain targets (non-ValueError failure) is reported once
+                first = run_generic(res, rep, dname, lv, lname, 'generic', X, scen['generic'], s(0, n_splines=5) + l(1) + f(2))
+                if first in ('OAE', 'OTypeError', 'OOther'):
+                    res.count('generic-fit:pair unusable on plain targets')
+                    continue
+                # structural scenarios shared by every pair
+                for tag, y in list(scen.items()):
+                    if tag != 'generic':
+                        run_generic(res, rep, dname, lv, lname, tag, X, y, s(0, n_splines=5) + l(1) + f(2))
+                y = scen['generic']
+                Xc = X[:12].copy(); Xc[:, 2] = np.arange(12)
+                run_generic(res, rep, dname, lv, lname, 'single row per category (12 rows, 12 categories)', Xc, y[:12],
+                            s(0, n_splines=5) + f(2))
+                run_generic(res, rep, dname, lv, lname, 'n<m (5 rows, 8+1+3 coefficients)', X[:5], y[:5],
+                            s(0, n_splines=8) + l(1) + f(2))
+                bnd = [k for k in scen if k != 'generic'][0]
+                run_generic(res, rep, dname, lv, lname, 'n<m with ' + bnd, X[b0 + b1[:1]], scen[bnd][b0 + b1[:1]],
+                            s(0, n_splines=8) + l(1))
+
+
+def run_generic(res, rep, dname, lv, lname, tag, X, y, terms):
+    from pygam import GAM
+    from pygam.distributions import BinomialDist
+    dist = BinomialDist(levels=lv) if dname == 'binomial' and lv != 1 else dname
+    X = np.array(X, dtype=float)
+    y = np.array(y, dtype=float)
+
+    holder = []
+
+    def go():
+        holder.append(GAM(terms, distribution=dist, link=lname, max_iter=25))
+        return holder[0].fit(X, y)
+    obs, text = observe(go, X)
+    fid = None
+    if obs == 'OAE' and lname == 'logit' and dname != 'binomial' and "has no attribute 'levels'" in text:
+        fid = 'C11-S20-logit-link-needs-levels'          # candidate id (reported, not yet a known finding)
+    if obs == 'ORetNonFinite':
+        try:
+            with warnings.catch_warnings():
+                warnings.simplefilter('ignore')
+                g = holder[0]
+                lp = g._linear_predictor(X)
+                mu = np.asarray(g.predict_mu(X), dtype=float)
+            coef_ok = bool(np.isfinite(g.coef_).all())
+            text += '; coef_ finite=%s, %d of %d training predictions non-finite, min linear predictor %.3g' % (
+                coef_ok, int((~np.isfinite(mu)).sum()), len(mu), float(np.min(lp)))
+            if lname == 'inv_squared' and coef_ok and bool(((~np.isfinite(mu)) == (lp <= 0)).all()):
+                fid = 'C11-S21-inv-squared-negative-predictor'   # candidate id (reported, not yet a known finding)
+        except Exception as e:
+            text += '; (diagnosis failed: %s)' % type(e).__name__
+    res.case(('generic', rep, dname, lv, lname, tag), nontrivial=True)
+    res.count('generic-fit:%s' % obs)
+    raw_linalg = obs == 'OVE' and text.startswith('LinAlgError')
+    if raw_linalg:
+        res.count('generic-fit:raw LinAlgError')
+    if obs not in ('OVE', 'ORetFinite') or raw_linalg:
+        res.violations.append(dict(
+            what='GAM(distribution=%s%s, link=%s).fit on valid data (%s) neither raised ValueError nor returned a finite model'
+                 % (dname, '' if lv is None else '(levels=%d)' % lv, lname, tag),
+            input=dict(cls='GAM', distribution=dname, levels=lv, link=lname, scenario=tag, seed=res.seed,
+                       terms=repr(terms), X=X.tolist(), y=y.tolist()),
+            expected='ValueError (incl. OptimizationError) or finite coef_ and finite training predictions',
+            observed=text, finding=fid))
+    return obs
+
+
 def nasty_finding(cls, tag, obs, text):
     return None
 
@@ -426,7 +572,11 @@ def run(res):
                 'compared in Coq with the outcome of run_trace on the generated trace, (b) judged directly against the '
                 'property statement. A case is distinct by (class, method, argument, variant, state, loop mode); all are '
                 'non-trivial. Fits on nasty-but-finite data (constant column, 1e+-150 magnitudes, n<m, zero weights, '
-                'constant y, duplicated rows) are explored (not proved): ValueError or finite model required.')
+                'constant y, duplicated rows) and fits of the generic GAM class with every distribution x link the library offers '
+                '(binomial with 1/2/5/12 trials) on valid targets incl. the boundary of support and link domain (y==0, y==levels, '
+                'Poisson zeros, 1e-8..1e8 and 1e+-150 positive targets, constant y, one row per category, n<m) are explored '
+                '(not proved): ValueError (incl. OptimizationError) or finite model required; raw LinAlgError, AssertionError, '
+                'any other type or a model with non-finite training predictions is a violation.')
     res.trusted += [
         'translator /verif/translator/skel_c11.py (validation traces; conventions: X and y always passed, other optional '
         'data arguments None unless traced, non-data parameters at their defaults, self-calls inlined to depth 6 with '
@@ -449,6 +599,7 @@ def run(res):
     excs = load_exceptions()
     cases, meta = entry_stream(res, rng, entries, excs)
     nasty_fits(res, rng)
+    generic_gam_fits(res, common.rng_for(res.seed, PROP, 'generic'))
     with common.CaseDir(PROP) as cd:
         failing, errors = common.run_bool_cases(cd, HEADER, cases, 'check_case', shard=150)
     for name, out in errors:
@@ -468,8 +619,9 @@ def run(res):
     res.extra['correspondence_cases'] = len(cases)
     res.extra['tolerances'] = {'outcome classes': 'exact'}
     res.extra['explored_not_proved'] = ('fits on valid data either raise ValueError or return finite coefficients and finite '
-                                        'training predictions: explored on %d nasty scenarios x 7 classes plus every valid '
-                                        'variant of the fitting entry points; depends on LAPACK, not proved' % 10)
+                                        'training predictions: explored on 10 nasty scenarios x 7 classes, every valid variant of the '
+                                        'fitting entry points, and GAM with every distribution x link pair (8 x 5) on 5-10 boundary / '
+                                        'structural scenarios each; depends on LAPACK, not proved')
     res.extra['theorem_exceptions'] = sorted({x['id'] for x in excs})
 
 
